@@ -927,6 +927,7 @@ func (x *Exec) callSiteObligations(fr *Frame, st *State, fn *ssa.Function, name 
 			vars[p.Name()] = root.params[i]
 			vars["root_"+p.Name()] = root.params[i] // not shadowed by a callee parameter of the same name
 		}
+		x.bindFreeVars(root, st, vars)
 		// callee parameters (shadowing)
 		if ec, ok := x.db.Externs[name]; ok && len(ec.Params) > 0 {
 			for i, p := range ec.Params {
@@ -1057,6 +1058,7 @@ func (x *Exec) ifaceCallSiteObligations(fr *Frame, st *State, recv *Value, m *ty
 			vars[p.Name()] = root.params[i]
 			vars["root_"+p.Name()] = root.params[i]
 		}
+		x.bindFreeVars(root, st, vars)
 		sig := m.Type().(*types.Signature)
 		for i := 0; i < sig.Params().Len() && i < len(args); i++ {
 			if n := sig.Params().At(i).Name(); n != "" {
@@ -1172,5 +1174,26 @@ func (x *Exec) recordArgs(st *State, name string, args []*Value) {
 		c.T = a.T
 		st.cells[c] = a
 		x.cellsW[c] = true
+	}
+}
+
+// bindFreeVars: captured variables of a closure under verification, by name (current values).
+func (x *Exec) bindFreeVars(fr *Frame, st *State, vars map[string]*Value) {
+	for i, fv := range fr.fn.FreeVars {
+		if i >= len(fr.bind) {
+			break
+		}
+		v := fr.bind[i]
+		if v.K == KPtr {
+			if pt, ok := fv.Type().(*types.Pointer); ok {
+				if _, taken := vars[fv.Name()]; !taken {
+					vars[fv.Name()] = x.load(st, v.P, pt.Elem())
+				}
+				continue
+			}
+		}
+		if _, taken := vars[fv.Name()]; !taken {
+			vars[fv.Name()] = v
+		}
 	}
 }
